@@ -73,7 +73,13 @@ pub struct Exec {
     /// ids of values the harness knows specs may have leaked after an injected fault
     pub leaked_ok: BTreeSet<u64>,
     pub zst_leak_ok: bool,
-    zst_dropped_seen: u64,
+    /// between a parallel phase and the end of the next maintain: aliveness mismatches also concern C10
+    pub c10_window: bool,
+    /// (op uid, number of destructor calls the model predicts for it) - fault enumeration sites
+    pub fault_sites: Vec<(u32, u32)>,
+    /// fault to inject while the world is dropped
+    pub final_fault: Option<u16>,
+    pub zst_dropped_seen: u64,
 }
 
 pub fn props(ps: &[&str]) -> Vec<String> {
@@ -82,8 +88,14 @@ pub fn props(ps: &[&str]) -> Vec<String> {
 
 impl Exec {
     pub fn viol(&self, ps: &[&str], oracle: &str, detail: String) -> Violation {
+        let mut ps: Vec<&str> = ps.to_vec();
+        // once an injected destructor panic has been caught, "the world remains usable" is part
+        // of C19: any later discrepancy in this run concerns it too
+        if self.cfg.faults && self.stats.faults_fired > 0 && !ps.contains(&"C19") {
+            ps.push("C19");
+        }
         Violation {
-            props: props(ps),
+            props: props(&ps),
             oracle: oracle.to_string(),
             detail,
             at_uid: self.cur_uid,
@@ -114,6 +126,9 @@ impl Exec {
             cur_uid: 0,
             leaked_ok: BTreeSet::new(),
             zst_leak_ok: false,
+            c10_window: false,
+            fault_sites: vec![],
+            final_fault: None,
             zst_dropped_seen: 0,
         };
         ex.prealloc()?;
@@ -204,6 +219,10 @@ impl Exec {
             if attached.iter().any(|a| a.0 as usize == s) {
                 continue;
             }
+            let orphan = self.model.comps[s].contains_key(&e.id());
+            if orphan {
+                continue;
+            }
             if self.slots[s].contains(self.w(), e) || self.slots[s].get(self.w(), e).is_some() {
                 return Err(self.viol(
                     &["C05"],
@@ -232,8 +251,14 @@ impl Exec {
     pub fn apply(&mut self, op: &Op) -> R {
         self.cur_uid = op.uid;
         self.stats.ops += 1;
-        if self.cfg.faults && op.fault.is_some() {
-            return crate::wfault::apply_with_fault(self, op);
+        if self.cfg.faults {
+            let n = crate::wfault::predict(self, op).len() as u32;
+            if n > 0 {
+                self.fault_sites.push((op.uid, n));
+            }
+            if op.fault.is_some() {
+                return crate::wfault::apply_with_fault(self, op);
+            }
         }
         let r = catch_unwind(AssertUnwindSafe(|| self.apply_inner(op)));
         match r {
@@ -461,8 +486,9 @@ impl Exec {
                 vec!["C05", "C02"]
             }
             OpKind::Maintain => {
-                self.maintain()?;
-                vec!["C09", "C05", "C02"]
+                let r = self.maintain().and_then(|_| self.post(&["C09", "C05", "C02"]));
+                self.c10_window = false;
+                return r;
             }
             OpKind::Observe => vec!["C02"],
             other => return crate::wstorage::apply_storage_op(self, op.uid, other),
@@ -750,13 +776,25 @@ impl Exec {
     // cross-invariants after every step
 
     pub fn post(&mut self, state_props: &[&str]) -> R {
-        self.check_ledger()?;
+        // order matters for attribution: observable state first (the operation's own property),
+        // then event streams, then the value ledger
+        self.check_double_drops()?;
         self.check_aliveness()?;
         self.check_storages(state_props)?;
         self.check_events()?;
+        self.check_ledger()?;
         let sh = self.model.state_hash();
         self.stats.trace.add(sh);
         self.stats.model_states.push(sh);
+        Ok(())
+    }
+
+    pub fn check_double_drops(&mut self) -> R {
+        let anomalies = ledger::take_anomalies();
+        if let Some(a) = anomalies.first() {
+            let ps: &[&str] = if self.cfg.faults { &["C19", "C08"] } else { &["C08"] };
+            return Err(self.viol(ps, "ledger-exactly-once", a.clone()));
+        }
         Ok(())
     }
 
@@ -769,6 +807,7 @@ impl Exec {
         let mut drops: Vec<u64> = ledger::take_drops()
             .into_iter()
             .filter(|&id| !ledger::is_filler(id) || self.model_knows_value(id))
+            .filter(|id| !(self.leaked_ok.contains(id) && !self.model.exp_destroyed.contains(id)))
             .collect();
         drops.sort();
         let mut exp = std::mem::take(&mut self.model.exp_destroyed);
@@ -833,6 +872,7 @@ impl Exec {
     }
 
     pub fn check_aliveness(&mut self) -> R {
+        let ap: Vec<&str> = if self.c10_window { vec!["C02", "C10"] } else { vec!["C02"] };
         let sample = self.sample_handles();
         {
             let w = self.w();
@@ -845,7 +885,7 @@ impl Exec {
                 let eb = ea && i.merged;
                 if a != ea {
                     return Err(self.viol(
-                        &["C02"],
+                        &ap,
                         "entities-is-alive",
                         format!(
                             "Entities::is_alive({:?}) = {}, expected {} (merged={}, pending_kill={})",
@@ -855,7 +895,7 @@ impl Exec {
                 }
                 if b != eb {
                     return Err(self.viol(
-                        &["C02"],
+                        &ap,
                         "world-is-alive",
                         format!(
                             "World::is_alive({:?}) = {}, expected {} (alive={}, merged={})",
@@ -882,7 +922,7 @@ impl Exec {
             if got != exp {
                 let d = first_diff(&got, &exp);
                 return Err(self.viol(
-                    &["C02"],
+                    &ap,
                     "entities-join",
                     format!(
                         "(&entities).join() yields {} entities, expected {}; first difference at position {}: got {:?}, expected {:?}",
@@ -1068,6 +1108,16 @@ impl Exec {
             self.stats.world_dropped_dirty += 1;
         }
         let in_world = self.model.values_in_world();
+        if self.cfg.faults {
+            let ids: Vec<u64> = in_world.iter().copied().collect();
+            if !ids.is_empty() {
+                self.fault_sites.push((u32::MAX, ids.len() as u32));
+                if let Some(k) = self.final_fault {
+                    ledger::arm_fault(ids[k as usize % ids.len()]);
+                    self.stats.faults_armed += 1;
+                }
+            }
+        }
         let w = self.world.take().unwrap();
         let r = catch_unwind(AssertUnwindSafe(move || drop(w)));
         if let Err(e) = r {
@@ -1079,6 +1129,10 @@ impl Exec {
                     format!("dropping the world panicked: {}", msg),
                 ));
             }
+        }
+        if ledger::disarm() {
+            self.stats.faults_fired += 1;
+            self.stats.probe("fault_fired_during_world_teardown");
         }
         let anomalies = ledger::take_anomalies();
         if let Some(a) = anomalies.first() {
